@@ -340,7 +340,7 @@ Case shrink(const Driver &d, const Case &c0, const Verdict &v0, int max_evals, i
     Verdict v = d.eval(best, ctx);
     if (v.cls == cls && ctx.recorded.size() == best.runs.size()) {
       Case cand = best;
-      for (size_t i = 0; i < cand.runs.size(); i++) if (!cand.runs[i].sched.explicit_) { cand.runs[i].sched.explicit_ = true; cand.runs[i].sched.devs = ctx.recorded[i]; }
+      for (size_t i = 0; i < cand.runs.size(); i++) if (!cand.runs[i].sched.explicit_) { cand.runs[i].sched.explicit_ = true; cand.runs[i].sched.devs = ctx.recorded[i]; cand.runs[i].sched.stall_k = 0; /* its effect is part of the recorded choices */ }
       try_case(cand);
     }
   }
